@@ -6,6 +6,7 @@ CONSTANTS
  MaxCommits = 3
  MaxSteps = 5
  Emit = FALSE
+ Skew = FALSE
  Modes = {"git-push"}
  SmudgedWT = FALSE
  RecentDays = 10
